@@ -562,4 +562,492 @@ theorem visit_spec (Q : Query) (k : Nat) (dq : Nat → Int) (s : St) (idx : Nat)
       omega
     · intro he hexit; rw [he] at hexit; cases hexit
 
+/-! ## the tree invariant -/
+
+/-- the tree a node index stands for (ghost): finite by construction, hence acyclic -/
+inductive VT where
+  | nil
+  | leaf (pts : List Nat)
+  | inner (v : Nat) (lo0 up0 lo1 up1 : Int) (t0 t1 : VT)
+
+def VT.pts : VT → List Nat
+  | .nil => []
+  | .leaf p => p
+  | .inner v _ _ _ _ t0 t1 => v :: (t0.pts ++ t1.pts)
+
+/-- node `n` of the stored array represents the tree `t` (`n < 0`: the empty tree; bucket nodes are non-empty) -/
+inductive Rep (tree : Array Node) (bucket : Nat) : Int → VT → Prop
+  | nil {n : Int} : n < 0 → Rep tree bucket n .nil
+  | leaf {n : Int} {ls : List Int} : 0 ≤ n → tree[n.toNat]? = some (.leaf ls) → validLeaves (ls.take bucket) ≠ [] →
+      Rep tree bucket n (.leaf (validLeaves (ls.take bucket)))
+  | inner {n : Int} {v : Nat} {lo0 up0 c0 lo1 up1 c1 : Int} {t0 t1 : VT} : 0 ≤ n →
+      tree[n.toNat]? = some (.inner v lo0 up0 c0 lo1 up1 c1) → Rep tree bucket c0 t0 → Rep tree bucket c1 t1 →
+      Rep tree bucket n (.inner v lo0 up0 lo1 up1 t0 t1)
+
+/-- every point `p` of child `l` of a node with vantage point `v` has `lower[l] ≤ d v p ≤ upper[l]` -/
+def Bounded (d : Nat → Nat → Int) : VT → Prop
+  | .nil => True
+  | .leaf _ => True
+  | .inner v lo0 up0 lo1 up1 t0 t1 =>
+    (∀ p ∈ t0.pts, lo0 ≤ d v p ∧ d v p ≤ up0) ∧ (∀ p ∈ t1.pts, lo1 ≤ d v p ∧ d v p ≤ up1) ∧ Bounded d t0 ∧ Bounded d t1
+
+/-- `TreeInv`: the last node is the root of a (finite, hence acyclic) tree of nodes whose bounds enclose the distances
+    of the children's points from the vantage point and in which every point index `0 … numpoints−1` occurs exactly once -/
+def TreeInv (tree : Array Node) (bucket numpoints : Nat) (d : Nat → Nat → Int) : Prop :=
+  ∃ t, Rep tree bucket ((tree.size : Int) - 1) t ∧ Bounded d t ∧ t.pts.Perm (List.range numpoints)
+
+/-- what the search uses of the metric: distances to the query are non-negative and obey the triangle inequality with
+    the inter-point distances in its three forms -/
+structure MetricQ (d : Nat → Nat → Int) (dq : Nat → Int) : Prop where
+  nonneg : ∀ p, 0 ≤ dq p
+  tri1 : ∀ v p, dq p ≤ dq v + d v p
+  tri2 : ∀ v p, d v p ≤ dq v + dq p
+  tri3 : ∀ v p, dq v ≤ d v p + dq p
+
+theorem rep_pts_ne_nil {tree : Array Node} {bucket : Nat} {n : Int} {t : VT} (h : Rep tree bucket n t) (hn : 0 ≤ n) :
+    t.pts ≠ [] := by
+  cases h with
+  | nil h => omega
+  | leaf _ _ h => exact h
+  | inner => simp [VT.pts]
+
+theorem rep_neg {tree : Array Node} {bucket : Nat} {n : Int} {t : VT} (h : Rep tree bucket n t) (hn : n < 0) :
+    t.pts = [] := by
+  cases h with
+  | nil h => rfl
+  | leaf h => omega
+  | inner h => omega
+
+/-! ## the `todo` queue with its ghost trees -/
+
+inductive Zip (R : Item → VT → Prop) : List Item → List VT → Prop
+  | nil : Zip R [] []
+  | cons {x : Item} {t : VT} {xs : List Item} {ts : List VT} : R x t → Zip R xs ts → Zip R (x :: xs) (t :: ts)
+
+theorem zip_insDesc {R : Item → VT → Prop} (x : Item) (t : VT) (hx : R x t) :
+    ∀ (todo : List Item) (ts : List VT), Zip R todo ts → ∃ ts2, Zip R (insDesc x todo) ts2 ∧ ts2.Perm (t :: ts) := by
+  intro todo ts h
+  induction h with
+  | nil => exact ⟨[t], Zip.cons hx Zip.nil, List.Perm.refl _⟩
+  | @cons y u ys us hy hys ih =>
+    simp only [insDesc]
+    split
+    · exact ⟨t :: u :: us, Zip.cons hx (Zip.cons hy hys), List.Perm.refl _⟩
+    · obtain ⟨ts2, hz, hp⟩ := ih
+      exact ⟨u :: ts2, Zip.cons hy hz, (List.Perm.cons u hp).trans (List.Perm.swap t u us)⟩
+
+/-- distances to the query of all points below the nodes of `todo` -/
+def D (dq : Nat → Int) (ts : List VT) : List Int := (ts.flatMap VT.pts).map dq
+
+theorem D_cons (dq : Nat → Int) (t : VT) (ts : List VT) : D dq (t :: ts) = t.pts.map dq ++ D dq ts := by
+  simp [D]
+
+theorem D_perm (dq : Nat → Int) {ts1 ts2 : List VT} (h : ts1.Perm ts2) : (D dq ts1).Perm (D dq ts2) :=
+  (h.flatMap_right VT.pts).map dq
+
+def TodoR (tree : Array Node) (bucket : Nat) (d : Nat → Nat → Int) (dq : Nat → Int) (it : Item) (t : VT) : Prop :=
+  0 ≤ it.2 ∧ Rep tree bucket it.2 t ∧ Bounded d t ∧ ∀ p ∈ t.pts, -it.1 ≤ dq p
+
+/-- candidates that can still matter: inside the window and not beyond `tau` -/
+def relv (Q : Query) (tau : Int) (y : Int) : Bool := decide (y ≤ tau) && inWindow Q y
+
+theorem kbest_drop {Q : Query} {k : Nat} {s : St} (h : InvR Q k s) (hk : 1 ≤ k) (Y0 A : List Int)
+    (hY : ∀ y ∈ Y0, inWindow Q y = true ∧ s.tau < y) :
+    kbest k (dists s.res ++ (Y0 ++ A)) = kbest k (dists s.res ++ A) := by
+  have h1 : kbest k (dists s.res ++ Y0) = dists s.res := by
+    have hf : Y0.filter (inWindow Q) = Y0 := List.filter_eq_self.mpr (fun y hy => (hY y hy).1)
+    have := kbest_drop_irrelevant h hk Y0 (fun y hy _ => (hY y hy).2)
+    rwa [hf] at this
+  rw [← List.append_assoc, ← kbest_absorb, h1]
+
+theorem kbest_relv {Q : Query} {k : Nat} {s : St} (h : InvR Q k s) (hk : 1 ≤ k) (Y : List Int) :
+    kbest k (dists s.res ++ Y.filter (inWindow Q)) = kbest k (dists s.res ++ Y.filter (relv Q s.tau)) := by
+  have hp := List.filter_append_perm (fun y => decide (y ≤ s.tau)) (Y.filter (inWindow Q))
+  have hA : (Y.filter (inWindow Q)).filter (fun y => decide (y ≤ s.tau)) = Y.filter (relv Q s.tau) := by
+    rw [List.filter_filter]; rfl
+  rw [hA] at hp
+  have e1 : kbest k (dists s.res ++ Y.filter (inWindow Q)) =
+      kbest k (dists s.res ++ ((Y.filter (inWindow Q)).filter (fun x => !decide (x ≤ s.tau)) ++ Y.filter (relv Q s.tau))) :=
+    kbest_perm (List.Perm.append_left _ (hp.symm.trans List.perm_append_comm))
+  rw [e1]
+  apply kbest_drop h hk
+  intro y hy
+  simp only [List.mem_filter, Bool.not_eq_eq_eq_not, Bool.not_true, decide_eq_false_iff_not] at hy
+  exact ⟨hy.1.2, by omega⟩
+
+/-- an exit (`tau ≤ tol = 0` with a full heap) is final: everything else is at distance `≥ 0` -/
+theorem kbest_exit {k : Nat} (r Y : List Int) (hs : Sorted r) (hl : r.length = k) (hneg : ∀ x ∈ r, x ≤ 0)
+    (hY : ∀ y ∈ Y, 0 ≤ y) : kbest k (r ++ Y) = r :=
+  kbest_discard k r Y hs hl (fun y hy x hx => Int.le_trans (hneg x hx) (hY y hy))
+
+theorem visitLeaves_spec (Q : Query) (k : Nat) (dq : Nat → Int) (hk : 1 ≤ k) (hex : Q.exhaustive = true) (htol : Q.tol = 0) :
+    ∀ (l : List Int) (s : St), InvR Q k s → s.exit = false →
+      ∃ pre post, validLeaves l = pre ++ post ∧ InvR Q k (visitLeaves Q k dq s l) ∧
+        dists (visitLeaves Q k dq s l).res = kbest k (dists s.res ++ (pre.map dq).filter (inWindow Q)) ∧
+        ((visitLeaves Q k dq s l).exit = false → post = []) ∧
+        ((visitLeaves Q k dq s l).exit = true →
+          (visitLeaves Q k dq s l).res.length = k ∧ ∀ x ∈ dists (visitLeaves Q k dq s l).res, x ≤ 0) := by
+  intro l
+  induction l with
+  | nil =>
+    intro s h he
+    refine ⟨[], [], rfl, h, ?_, fun _ => rfl, ?_⟩
+    · simp only [visitLeaves, List.map_nil, List.filter_nil, List.append_nil]
+      exact (kbest_self k _ (sorted_dists h.sorted) (by simp [dists]; exact h.len)).symm
+    · intro hx; simp only [visitLeaves] at hx; rw [he] at hx; cases hx
+  | cons i is ih =>
+    intro s h he
+    by_cases hi : i < 0
+    · refine ⟨[], [], by simp [validLeaves, hi], ?_, ?_, fun _ => rfl, ?_⟩
+      · simp only [visitLeaves, hi, if_true]; exact h
+      · simp only [visitLeaves, hi, if_true, List.map_nil, List.filter_nil, List.append_nil]
+        exact (kbest_self k _ (sorted_dists h.sorted) (by simp [dists]; exact h.len)).symm
+      · intro hx; simp only [visitLeaves, hi, if_true] at hx; rw [he] at hx; cases hx
+    · obtain ⟨h1, hd1, hx1⟩ := visit_spec Q k dq s i.toNat hk hex htol h
+      have hv : validLeaves (i :: is) = i.toNat :: validLeaves is := by simp [validLeaves, hi]
+      by_cases hexit : (visit Q k dq s i.toNat).exit = true
+      · have hres : visitLeaves Q k dq s (i :: is) = visit Q k dq s i.toNat := by
+          simp only [visitLeaves, hi, if_false, hexit, if_true]
+        rw [hres]
+        refine ⟨[i.toNat], validLeaves is, by rw [hv]; rfl, h1, ?_, ?_, fun _ => hx1 he hexit⟩
+        · simpa using hd1
+        · intro hc; rw [hexit] at hc; cases hc
+      · have hexit' : (visit Q k dq s i.toNat).exit = false := by simpa using hexit
+        have hres : visitLeaves Q k dq s (i :: is) = visitLeaves Q k dq (visit Q k dq s i.toNat) is := by
+          simp only [visitLeaves, hi, if_false, hexit', Bool.false_eq_true]
+        rw [hres]
+        obtain ⟨pre, post, hpp, h2, hd2, hf2, hx2⟩ := ih (visit Q k dq s i.toNat) h1 hexit'
+        refine ⟨i.toNat :: pre, post, by rw [hv, hpp]; rfl, h2, ?_, hf2, hx2⟩
+        rw [hd2, hd1, kbest_absorb, List.append_assoc]
+        congr 2
+        simp [List.filter_cons]
+        split <;> simp
+
+/-! ## soundness of the pruning tests -/
+
+theorem relv_nil_of {Q : Query} {tau : Int} {L : List Int} (h : ∀ y ∈ L, inWindow Q y = true → tau < y) :
+    L.filter (relv Q tau) = [] := by
+  rw [List.filter_eq_nil_iff]
+  intro y hy hr
+  simp only [relv, Bool.and_eq_true, decide_eq_true_eq] at hr
+  have := h y hy hr.2
+  omega
+
+/-- one child: either it is pushed with a valid lower bound, or none of its points can enter the result -/
+theorem pushChild_spec {tree : Array Node} {bucket : Nat} {d : Nat → Nat → Int} {dq : Nat → Int} (hm : MetricQ d dq)
+    (Q : Query) (tau : Int) (v : Nat) (lo up c : Int) (tc : VT)
+    (hrep : Rep tree bucket c tc) (hb : Bounded d tc) (hbd : ∀ p ∈ tc.pts, lo ≤ d v p ∧ d v p ≤ up)
+    (todo : List Item) (ts : List VT) (h : Zip (TodoR tree bucket d dq) todo ts) :
+    ∃ ts2, Zip (TodoR tree bucket d dq) (pushChild Q tau (dq v) lo up c todo) ts2 ∧
+      (ts2.flatMap VT.pts).length ≤ (ts.flatMap VT.pts).length + tc.pts.length ∧
+      ((D dq ts2).filter (relv Q tau)).Perm ((tc.pts.map dq).filter (relv Q tau) ++ (D dq ts).filter (relv Q tau)) := by
+  -- the child is dropped
+  have drop : (∀ p ∈ tc.pts, inWindow Q (dq p) = true → tau < dq p) →
+      ∃ ts2, Zip (TodoR tree bucket d dq) todo ts2 ∧
+      (ts2.flatMap VT.pts).length ≤ (ts.flatMap VT.pts).length + tc.pts.length ∧
+      ((D dq ts2).filter (relv Q tau)).Perm ((tc.pts.map dq).filter (relv Q tau) ++ (D dq ts).filter (relv Q tau)) := by
+    intro hall
+    refine ⟨ts, h, by omega, ?_⟩
+    rw [relv_nil_of (Q := Q) (tau := tau) (L := tc.pts.map dq)]
+    · exact List.Perm.refl _
+    · intro y hy; obtain ⟨p, hp, rfl⟩ := List.mem_map.mp hy; exact hall p hp
+  -- the child is pushed with priority `prio`
+  have push : ∀ prio : Int, 0 ≤ c → (∀ p ∈ tc.pts, -prio ≤ dq p) →
+      ∃ ts2, Zip (TodoR tree bucket d dq) (insDesc (prio, c) todo) ts2 ∧
+      (ts2.flatMap VT.pts).length ≤ (ts.flatMap VT.pts).length + tc.pts.length ∧
+      ((D dq ts2).filter (relv Q tau)).Perm ((tc.pts.map dq).filter (relv Q tau) ++ (D dq ts).filter (relv Q tau)) := by
+    intro prio hc hall
+    obtain ⟨ts2, hz, hp⟩ := zip_insDesc (R := TodoR tree bucket d dq) (prio, c) tc ⟨hc, hrep, hb, hall⟩ todo ts h
+    refine ⟨ts2, hz, ?_, ?_⟩
+    · have := (hp.flatMap_right VT.pts).length_eq
+      simp only [List.flatMap_cons, List.length_append] at this
+      omega
+    · have := (D_perm dq hp).filter (relv Q tau)
+      rw [D_cons, List.filter_append] at this
+      exact this
+  unfold pushChild
+  by_cases h1 : 0 ≤ c ∧ Q.mindist ≤ dq v + up
+  · rw [if_pos h1]
+    by_cases h2 : dq v < lo
+    · rw [if_pos h2]
+      by_cases h3 : lo - dq v ≤ tau
+      · rw [if_pos h3]
+        apply push _ h1.1
+        intro p hp; have := hbd p hp; have := hm.tri2 v p; omega
+      · rw [if_neg h3]
+        apply drop
+        intro p hp _; have := hbd p hp; have := hm.tri2 v p; omega
+    · rw [if_neg h2]
+      by_cases h4 : up < dq v
+      · rw [if_pos h4]
+        by_cases h5 : dq v - up ≤ tau
+        · rw [if_pos h5]
+          apply push _ h1.1
+          intro p hp; have := hbd p hp; have := hm.tri3 v p; omega
+        · rw [if_neg h5]
+          apply drop
+          intro p hp _; have := hbd p hp; have := hm.tri3 v p; omega
+      · rw [if_neg h4]
+        apply push _ h1.1
+        intro p hp; have := hm.nonneg p; omega
+  · rw [if_neg h1]
+    apply drop
+    intro p hp hw
+    by_cases hc : 0 ≤ c
+    · have hw' := (inWindow_iff Q _).mp hw
+      have := hbd p hp; have := hm.tri1 v p
+      omega
+    · have := rep_neg hrep (by omega)
+      rw [this] at hp; simp at hp
+
+/-! ## the main loop -/
+
+theorem loop_nil (tree : Array Node) (bucket : Nat) (dq : Nat → Int) (Q : Query) (k fuel : Nat) (s : St) :
+    loop tree bucket dq Q k fuel [] s = some s := by
+  cases fuel <;> rfl
+
+theorem loop_spec {tree : Array Node} {bucket : Nat} {d : Nat → Nat → Int} {dq : Nat → Int} (hm : MetricQ d dq)
+    (Q : Query) (k : Nat) (hk : 1 ≤ k) (hex : Q.exhaustive = true) (htol : Q.tol = 0) :
+    ∀ (fuel : Nat) (todo : List Item) (ts : List VT) (s : St),
+      Zip (TodoR tree bucket d dq) todo ts → InvR Q k s → s.exit = false → (ts.flatMap VT.pts).length ≤ fuel →
+      ∃ s', loop tree bucket dq Q k fuel todo s = some s' ∧
+        dists s'.res = kbest k (dists s.res ++ (D dq ts).filter (inWindow Q)) := by
+  intro fuel
+  induction fuel with
+  | zero =>
+    intro todo ts s hz h he hf
+    cases hz with
+    | nil =>
+      refine ⟨s, loop_nil .., ?_⟩
+      simp only [D, List.flatMap_nil, List.map_nil, List.filter_nil, List.append_nil]
+      exact (kbest_self k _ (sorted_dists h.sorted) (by simp [dists]; exact h.len)).symm
+    | @cons x t xs ts' hx hxs =>
+      exfalso
+      have := rep_pts_ne_nil hx.2.1 hx.1
+      simp only [List.flatMap_cons, List.length_append] at hf
+      have : t.pts.length ≠ 0 := by intro hc; exact this (List.length_eq_zero_iff.mp hc)
+      omega
+  | succ fuel ih =>
+    intro todo ts s hz h he hf
+    cases hz with
+    | nil =>
+      refine ⟨s, loop_nil .., ?_⟩
+      simp only [D, List.flatMap_nil, List.map_nil, List.filter_nil, List.append_nil]
+      exact (kbest_self k _ (sorted_dists h.sorted) (by simp [dists]; exact h.len)).symm
+    | @cons x t xs ts' hx hxs =>
+      obtain ⟨prio, n⟩ := x
+      obtain ⟨hn, hrep, hbnd, hlow⟩ := hx
+      simp only at hn hrep hlow
+      have hne := rep_pts_ne_nil hrep hn
+      have hlen : t.pts.length ≠ 0 := by intro hc; exact hne (List.length_eq_zero_iff.mp hc)
+      simp only [List.flatMap_cons, List.length_append] at hf
+      have hsd := sorted_dists h.sorted
+      rw [loop]
+      by_cases hgo : 0 ≤ n ∧ -prio ≤ s.tau - Q.tol
+      · rw [if_pos hgo]
+        cases hrep with
+        | nil hneg => omega
+        | @leaf _ ls _ hget hnonempty =>
+          simp only [hget]
+          obtain ⟨pre, post, hpp, h1, hd1, hf1, hx1⟩ := visitLeaves_spec Q k dq hk hex htol (ls.take bucket) s h he
+          simp only [VT.pts] at hf hlow hlen
+          have hD : D dq (VT.leaf (validLeaves (ls.take bucket)) :: ts') = pre.map dq ++ (post.map dq ++ D dq ts') := by
+            rw [D_cons]; simp only [VT.pts]; rw [hpp, List.map_append, List.append_assoc]
+          by_cases hexit : (visitLeaves Q k dq s (List.take bucket ls)).exit = true
+          · rw [if_pos hexit]
+            refine ⟨_, rfl, ?_⟩
+            obtain ⟨hl1, hn1⟩ := hx1 hexit
+            rw [hD, List.filter_append, ← List.append_assoc, ← kbest_absorb, ← hd1]
+            symm
+            apply kbest_exit _ _ (sorted_dists h1.sorted) (by simp [dists, hl1]) hn1
+            intro y hy
+            simp only [List.mem_filter, List.mem_append, List.mem_map, D] at hy
+            rcases hy.1 with ⟨p, _, rfl⟩ | ⟨p, _, rfl⟩ <;> exact hm.nonneg p
+          · rw [if_neg hexit]
+            have hexit' : (visitLeaves Q k dq s (List.take bucket ls)).exit = false := by simpa using hexit
+            have hpost := hf1 hexit'
+            obtain ⟨s', hs', hd'⟩ := ih xs ts' _ hxs h1 hexit' (by omega)
+            refine ⟨s', hs', ?_⟩
+            rw [hd', hd1, kbest_absorb, hD, hpost]
+            simp [List.filter_append, List.append_assoc]
+        | @inner _ v lo0 up0 c0 lo1 up1 c1 t0 t1 _ hget hr0 hr1 =>
+          simp only [hget]
+          obtain ⟨h1, hd1, hx1⟩ := visit_spec Q k dq s v hk hex htol h
+          simp only [VT.pts] at hf hlow hlen
+          obtain ⟨hb0, hb1, hbd0, hbd1⟩ := hbnd
+          have hD : D dq (VT.inner v lo0 up0 lo1 up1 t0 t1 :: ts') = [dq v] ++ ((t0.pts.map dq ++ t1.pts.map dq) ++ D dq ts') := by
+            rw [D_cons]; simp [VT.pts]
+          by_cases hexit : (visit Q k dq s v).exit = true
+          · rw [if_pos hexit]
+            refine ⟨_, rfl, ?_⟩
+            obtain ⟨hl1, hn1⟩ := hx1 he hexit
+            rw [hD, List.filter_append, ← List.append_assoc, ← kbest_absorb, ← hd1]
+            symm
+            apply kbest_exit _ _ (sorted_dists h1.sorted) (by simp [dists, hl1]) hn1
+            intro y hy
+            simp only [List.mem_filter, List.mem_append, List.mem_map, D] at hy
+            rcases hy.1 with (⟨p, _, rfl⟩ | ⟨p, _, rfl⟩) | ⟨p, _, rfl⟩ <;> exact hm.nonneg p
+          · rw [if_neg hexit]
+            have hexit' : (visit Q k dq s v).exit = false := by simpa using hexit
+            rw [htol, Int.sub_zero]
+            obtain ⟨tsA, hzA, hlA, hpA⟩ := pushChild_spec hm Q (visit Q k dq s v).tau v lo0 up0 c0 t0 hr0 hbd0 hb0 xs ts' hxs
+            obtain ⟨tsB, hzB, hlB, hpB⟩ := pushChild_spec hm Q (visit Q k dq s v).tau v lo1 up1 c1 t1 hr1 hbd1 hb1 _ tsA hzA
+            simp only [List.length_cons, List.length_append] at hf
+            obtain ⟨s', hs', hd'⟩ := ih _ tsB _ hzB h1 hexit' (by omega)
+            refine ⟨s', hs', ?_⟩
+            have e1 := kbest_relv h1 hk (D dq tsB)
+            have e2 : kbest k (dists s.res ++ (D dq (VT.inner v lo0 up0 lo1 up1 t0 t1 :: ts')).filter (inWindow Q)) =
+                kbest k (dists (visit Q k dq s v).res ++ ((t0.pts.map dq ++ t1.pts.map dq) ++ D dq ts').filter (inWindow Q)) := by
+              rw [hD, List.filter_append, ← List.append_assoc, ← kbest_absorb, ← hd1]
+            have e3 := kbest_relv h1 hk ((t0.pts.map dq ++ t1.pts.map dq) ++ D dq ts')
+            rw [hd', e1, e2, e3]
+            apply kbest_perm
+            apply List.Perm.append_left
+            refine hpB.trans ?_
+            refine (List.Perm.append_left _ hpA).trans ?_
+            simp only [List.filter_append, ← List.append_assoc]
+            exact List.Perm.append_right _ List.perm_append_comm
+      · rw [if_neg hgo]
+        obtain ⟨s', hs', hd'⟩ := ih xs ts' s hxs h he (by omega)
+        refine ⟨s', hs', ?_⟩
+        rw [hd', D_cons, List.filter_append]
+        symm
+        apply kbest_drop h hk
+        intro y hy
+        simp only [List.mem_filter, List.mem_map] at hy
+        obtain ⟨⟨p, hp, rfl⟩, hw⟩ := hy
+        refine ⟨hw, ?_⟩
+        have := hlow p hp
+        rw [htol] at hgo
+        omega
+
+/-! ## `Search` -/
+
+theorem search_spec {tree : Array Node} {bucket numpoints : Nat} {d : Nat → Nat → Int} {dq : Nat → Int}
+    (hm : MetricQ d dq) (Q : Query) (hex : Q.exhaustive = true) (htol : Q.tol = 0)
+    (hinv : TreeInv tree bucket numpoints d) :
+    ∃ res, search tree numpoints bucket dq Q = some res ∧ dists res = bruteforce numpoints dq Q := by
+  unfold search
+  by_cases hc : numpoints > 0 ∧ Q.k > 0 ∧ Q.maxdist > Q.mindist
+  · rw [if_pos hc]
+    obtain ⟨t, hrep, hb, hperm⟩ := hinv
+    have hlen : t.pts.length = numpoints := by rw [hperm.length_eq, List.length_range]
+    have hroot : 0 ≤ (tree.size : Int) - 1 := by
+      by_cases hneg : (tree.size : Int) - 1 < 0
+      · have := rep_neg hrep hneg
+        rw [this] at hlen; simp at hlen; omega
+      · omega
+    have hk : 1 ≤ Q.k.toNat := by omega
+    have hz : Zip (TodoR tree bucket d dq) [(1, (tree.size : Int) - 1)] [t] :=
+      Zip.cons ⟨hroot, hrep, hb, fun p _ => by have := hm.nonneg p; omega⟩ Zip.nil
+    have h0 : InvR Q Q.k.toNat { tau := Q.maxdist, res := [], exit := false } := by
+      refine ⟨List.Pairwise.nil, by simp, by simp [dists], ?_⟩
+      simp only [tauOf, List.length_nil]
+      rw [if_neg (by omega)]
+    obtain ⟨s', hs', hd'⟩ := loop_spec hm Q Q.k.toNat hk hex htol numpoints _ [t] _ hz h0 rfl (by simp [hlen])
+    refine ⟨s'.res, by rw [hs']; rfl, ?_⟩
+    rw [hd']
+    simp only [dists, List.map_nil, List.nil_append, bruteforce]
+    show kbest _ _ = kbest _ _
+    apply kbest_perm
+    apply List.Perm.filter
+    simp only [D, List.flatMap_cons, List.flatMap_nil, List.append_nil]
+    exact hperm.map dq
+  · rw [if_neg hc]
+    refine ⟨[], rfl, ?_⟩
+    simp only [dists, List.map_nil, bruteforce]
+    by_cases h1 : numpoints > 0
+    · by_cases h2 : Q.k > 0
+      · have h3 : ¬ Q.maxdist > Q.mindist := fun h3 => hc ⟨h1, h2, h3⟩
+        have : ((List.range numpoints).map dq).filter (inWindow Q) = [] := by
+          rw [List.filter_eq_nil_iff]
+          intro y _ hw
+          have := (inWindow_iff Q y).mp hw
+          omega
+        rw [this]; simp [sortAsc]
+      · have : Q.k.toNat = 0 := by omega
+        rw [this]; simp
+    · have : numpoints = 0 := by omega
+      subst this; simp [sortAsc]
+
+/-! ## the executable invariant check is sound -/
+
+theorem checkSub_sound (tree : Array Node) (bucket : Nat) (d : Nat → Nat → Int) :
+    ∀ (f : Nat) (n : Int) (pts : List Nat), checkSub tree bucket d f n = some pts →
+      ∃ t, Rep tree bucket n t ∧ Bounded d t ∧ t.pts = pts := by
+  intro f
+  induction f with
+  | zero =>
+    intro n pts h
+    simp only [checkSub] at h
+    by_cases hn : n < 0
+    · rw [if_pos hn] at h; cases h; exact ⟨.nil, Rep.nil hn, trivial, rfl⟩
+    · rw [if_neg hn] at h; cases h
+  | succ f ih =>
+    intro n pts h
+    simp only [checkSub] at h
+    by_cases hn : n < 0
+    · rw [if_pos hn] at h; cases h; exact ⟨.nil, Rep.nil hn, trivial, rfl⟩
+    · rw [if_neg hn] at h
+      cases hget : tree[n.toNat]? with
+      | none => simp only [hget] at h; cases h
+      | some node =>
+        simp only [hget] at h
+        cases node with
+        | leaf ls =>
+          simp only at h
+          by_cases he : (validLeaves (ls.take bucket)).isEmpty = true
+          · rw [if_pos he] at h; cases h
+          · rw [if_neg he] at h; cases h
+            refine ⟨.leaf (validLeaves (ls.take bucket)), Rep.leaf (by omega) hget ?_, trivial, rfl⟩
+            intro hc; rw [hc] at he; simp at he
+        | inner v lo0 up0 c0 lo1 up1 c1 =>
+          simp only at h
+          by_cases hc : c0 < n ∧ c1 < n
+          · rw [if_pos hc] at h
+            cases h0 : checkSub tree bucket d f c0 with
+            | none => simp only [h0] at h; cases h
+            | some p0 =>
+              cases h1 : checkSub tree bucket d f c1 with
+              | none => simp only [h0, h1] at h; cases h
+              | some p1 =>
+                simp only [h0, h1] at h
+                by_cases hall : (p0.all (fun p => decide (lo0 ≤ d v p) && decide (d v p ≤ up0)) &&
+                    p1.all (fun p => decide (lo1 ≤ d v p) && decide (d v p ≤ up1))) = true
+                · rw [if_pos hall] at h; cases h
+                  obtain ⟨t0, hr0, hb0, hp0⟩ := ih c0 p0 h0
+                  obtain ⟨t1, hr1, hb1, hp1⟩ := ih c1 p1 h1
+                  simp only [Bool.and_eq_true, List.all_eq_true, decide_eq_true_eq] at hall
+                  refine ⟨.inner v lo0 up0 lo1 up1 t0 t1, Rep.inner (by omega) hget hr0 hr1, ?_, by simp [VT.pts, hp0, hp1]⟩
+                  refine ⟨?_, ?_, hb0, hb1⟩
+                  · intro p hp; rw [hp0] at hp; exact hall.1 p hp
+                  · intro p hp; rw [hp1] at hp; exact hall.2 p hp
+                · rw [if_neg hall] at h; cases h
+          · rw [if_neg hc] at h; cases h
+
+theorem insNat_perm (x : Nat) (l : List Nat) : (insNat x l).Perm (x :: l) := by
+  induction l with
+  | nil => exact List.Perm.refl _
+  | cons y ys ih =>
+    simp only [insNat]; split
+    · exact List.Perm.refl _
+    · exact (List.Perm.cons y ih).trans (List.Perm.swap x y ys)
+
+theorem foldr_insNat_perm (l : List Nat) : (l.foldr insNat []).Perm l := by
+  induction l with
+  | nil => exact List.Perm.refl _
+  | cons x xs ih => exact (insNat_perm x _).trans (List.Perm.cons x ih)
+
+theorem checkInv_sound' (tree : Array Node) (numpoints bucket : Nat) (d : Nat → Nat → Int)
+    (h : checkInv tree numpoints bucket d = true) : TreeInv tree bucket numpoints d := by
+  unfold checkInv at h
+  cases hs : checkSub tree bucket d tree.size ((tree.size : Int) - 1) with
+  | none => simp only [hs] at h; cases h
+  | some pts =>
+    simp only [hs, beq_iff_eq] at h
+    obtain ⟨t, hr, hb, hp⟩ := checkSub_sound tree bucket d _ _ _ hs
+    refine ⟨t, hr, hb, ?_⟩
+    rw [hp, ← h]
+    exact (foldr_insNat_perm pts).symm
+
 end GeoVerif.VPTree
